@@ -1,0 +1,172 @@
+//go:build verif
+
+package interp
+
+// Contracts for property C17 (build constraints), checked by /verif/govc.
+// This file contains comments only; it adds no code to the package.
+// Spec functions (matchCore, plusBuildTerm, validTag, knownOSspec, ...) are defined in
+// /verif/specs/build.smt2 from the documented behaviour of go/build.
+
+//@ func contains(tags, tag) (r)
+//@   props C17
+//@   pure
+//@   opt opaque
+//@   ensures member: r == exists(k, 0, len(tags), tags[k] == tag)
+//@   canary r == exists(k, 1, len(tags), tags[k] == tag)
+//@   loop 1 index i
+//@   invariant none-before: forall(k, 0, i, tags[k] != tag)
+//@   replay tags := ${strs:tags}; tag := ${tag}
+//@   replay got := contains(tags, tag)
+//@   replay want := false
+//@   replay for _, t := range tags { if t == tag { want = true } }
+//@   replay if got != want { fmt.Printf("REPLAY-MISMATCH: contains(%q, %q) = %v, want %v\n", tags, tag, got, want) } else { fmt.Println("REPLAY-OK") }
+
+//@ func goMinorVersion(ctx) (m)
+//@   props C17
+//@   pure
+//@   requires ctx != nil && len(ctx.ReleaseTags) > 0
+//@   let last: ctx.ReleaseTags[len(ctx.ReleaseTags)-1]
+//@   panics when len(strings.Split(last, ".")) < 2 || atoiErr(strings.Split(last, ".")[1]) != 0
+//@   ensures minor: m == atoiVal(strings.Split(last, ".")[1])
+//@   canary m == atoiVal(strings.Split(last, ".")[0])
+
+// Abbreviations shared by the build-constraint contracts.
+//   matchTag(ctx, t)  — go/build's (*Context).matchTag: matchCore plus membership in the three tag lists
+//   ign(ctx)          — matchTag(ctx, "ignore"), the value of a malformed term
+//   termSpec(ctx, s)  — value of one comma-separated term of a "+build" line (parsePlusBuildExpr)
+//   ctxWF(ctx)        — shape of a build.Context as built by go/build.Default: non-empty release list
+//                        go1.1 ... go1.N whose last element parses to N, valid GOOS/GOARCH words
+//   relWF(ctx, s)     — membership of the tag of s in the release list is "canonical go1.n, 1 <= n <= N"
+//@ pred matchTag(ctx, t): matchCore(t, ctx.GOOS, ctx.GOARCH, ctx.Compiler, ctx.CgoEnabled) || contains(ctx.BuildTags, t) || contains(ctx.ToolTags, t) || contains(ctx.ReleaseTags, t)
+//@ pred ign(ctx): matchTag(ctx, "ignore")
+//@ pred termSpec(ctx, s): plusBuildTerm(s, matchTag(ctx, stripBang(s)), ign(ctx))
+//@ pred relLast(ctx): ctx.ReleaseTags[len(ctx.ReleaseTags)-1]
+//@ pred ctxWF(ctx): ctx != nil && len(ctx.ReleaseTags) > 0 && len(ctx.ReleaseTags) < 1000 && validTag(ctx.GOOS) && validTag(ctx.GOARCH) && len(strings.Split(relLast(ctx), ".")) == 2 && atoiErr(strings.Split(relLast(ctx), ".")[1]) == 0 && atoiVal(strings.Split(relLast(ctx), ".")[1]) == len(ctx.ReleaseTags)
+//@ pred relDigits(s): substr(stripBang(s), 4, len(stripBang(s)))
+//@ pred relCanon(s): allDigits(relDigits(s)) && itoa(atoiVal(relDigits(s))) == relDigits(s) && atoiVal(relDigits(s)) >= 1
+//@ pred relWF(ctx, s): (relCanon(s) ==> contains(ctx.ReleaseTags, stripBang(s)) == (atoiVal(relDigits(s)) <= len(ctx.ReleaseTags))) && (!relCanon(s) ==> !contains(ctx.ReleaseTags, stripBang(s)))
+
+//@ func buildTagOk(ctx, s) (r)
+//@   props C17
+//@   pure
+//@   opt opaque
+//@   requires ctxWF(ctx)
+//@   requires relWF(ctx, s)
+//@   let x: stripBang(s)
+//@   let d: relDigits(s)
+//@   let inBuild: contains(ctx.BuildTags, x)
+//@   let inTool: contains(ctx.ToolTags, x)
+//@   let inRel: contains(ctx.ReleaseTags, x)
+//@   let core: matchCore(x, ctx.GOOS, ctx.GOARCH, ctx.Compiler, ctx.CgoEnabled)
+//@   let valid: s != "" && s != "!" && !strings.HasPrefix(s, "!!") && validTag(x)
+//@   let rel: strings.HasPrefix(x, "go1.") && len(x) > 4
+//@   let canon: relCanon(s)
+//@   let osarch: x == ctx.GOOS || x == ctx.GOARCH
+//@   let ign: ign(ctx)
+//@   let plain: s != "" && s != "!" && !strings.HasPrefix(s, "!!")
+//@   case empty: s == ""
+//@   case bang: s == "!"
+//@   case bangbang: strings.HasPrefix(s, "!!")
+//@   case invalid: plain && !validTag(x) && !ign && !rel && !inBuild
+//@   case invalid-user: plain && !validTag(x) && !ign && !rel && inBuild
+//@   case invalid-release: plain && !validTag(x) && !ign && rel
+//@   case invalid-ignore: plain && !validTag(x) && ign
+//@   case osarch: valid && osarch
+//@   case user: valid && !osarch && inBuild
+//@   case release-canonical: valid && !osarch && !inBuild && rel && canon && !core && !inTool
+//@   case release-nondigit: valid && !osarch && !inBuild && rel && !allDigits(d) && !core && !inTool
+//@   case release-noncanonical: valid && !osarch && !inBuild && rel && !canon && allDigits(d) && !core && !inTool
+//@   case release-othermatch: valid && !osarch && !inBuild && rel && (core || inTool)
+//@   case compiler: valid && !osarch && !inBuild && !rel && x == ctx.Compiler
+//@   case cgo: valid && !osarch && !inBuild && !rel && x != ctx.Compiler && ctx.CgoEnabled && x == "cgo"
+//@   case unix: valid && !osarch && !inBuild && !rel && x != ctx.Compiler && x == "unix"
+//@   case alias: valid && !osarch && !inBuild && !rel && x != ctx.Compiler && x != "unix" && x != "cgo" && core
+//@   case tooltag: valid && !osarch && !inBuild && !rel && !core && inTool
+//@   case none: valid && !osarch && !inBuild && !rel && !core && !inTool && !inRel
+//@   ensures term: r == termSpec(ctx, s)
+//@   canary r == plusBuildTerm(s, core || inTool || inRel, ign)
+//@   replay import "go/build"
+//@   replay ctx := &build.Context{GOOS: ${ctx.GOOS}, GOARCH: ${ctx.GOARCH}, Compiler: ${ctx.Compiler}, CgoEnabled: ${ctx.CgoEnabled}, BuildTags: ${strs:ctx.BuildTags}, ToolTags: ${strs:ctx.ToolTags}, ReleaseTags: verifReleaseTags(${len(ctx.ReleaseTags)})}
+//@   replay s := ${s}
+//@   replay want := verifPlusBuildTerm(ctx, s)
+//@   replay got := buildTagOk(ctx, s)
+//@   replay if got != want { fmt.Printf("REPLAY-MISMATCH: buildTagOk(%q) = %v, go/build says %v (GOOS=%q GOARCH=%q tags=%q)\n", s, got, want, ctx.GOOS, ctx.GOARCH, ctx.BuildTags) } else { fmt.Println("REPLAY-OK") }
+
+//@ func buildOptionOk(ctx, tag) (r)
+//@   props C17
+//@   pure
+//@   opt opaque
+//@   requires ctxWF(ctx)
+//@   requires forall(k, 0, len(strings.Split(tag, ",")), relWF(ctx, strings.Split(tag, ",")[k]))
+//@   ensures and-of-terms: r == forall(k, 0, len(strings.Split(tag, ",")), buildTagOk(ctx, strings.Split(tag, ",")[k]))
+//@   canary r == forall(k, 1, len(strings.Split(tag, ",")), buildTagOk(ctx, strings.Split(tag, ",")[k]))
+//@   loop 1 index i
+//@   invariant prefix-true: forall(k, 0, i, buildTagOk(ctx, strings.Split(tag, ",")[k]))
+
+//@ func buildLineOk(ctx, line) (ok)
+//@   props C17
+//@   pure
+//@   requires ctxWF(ctx)
+//@   let rest: substr(line, 6, len(line))
+//@   let opts: strings.Split(strings.TrimSpace(rest), " ")
+//@   let fields: strings.Fields(rest)
+//@   requires forall(j, 0, len(opts), forall(k, 0, len(strings.Split(opts[j], ",")), relWF(ctx, strings.Split(opts[j], ",")[k])))
+//@   -- go/build/constraint.IsPlusBuild on the comment text: "+build" followed by a space, a tab or nothing
+//@   let isPlus: line == "+build" || strings.HasPrefix(line, "+build ") || strings.HasPrefix(line, "+build\t")
+//@   -- cells: in "regular" the words of the line are separated by single spaces, so that
+//@   -- strings.Fields (go/build) and strings.Split on " " (yaegi) see the same options
+//@   let regular: len(fields) == len(opts) && forall(k, 0, len(opts), fields[k] == opts[k])
+//@   case not-a-constraint: !isPlus
+//@   case bare: line == "+build"
+//@   case tab: strings.HasPrefix(line, "+build\t")
+//@   case regular: strings.HasPrefix(line, "+build ") && regular
+//@   case irregular-spacing: strings.HasPrefix(line, "+build ") && !regular
+//@   -- a line that is not a constraint imposes nothing; otherwise it is the OR of its options,
+//@   -- and a constraint line without any option is tag("ignore")
+//@   ensures or-of-options: ok == (!isPlus || ite(len(fields) == 0, ign(ctx), exists(k, 0, len(fields), buildOptionOk(ctx, fields[k]))))
+//@   canary ok == (!isPlus || forall(k, 0, len(fields), buildOptionOk(ctx, fields[k])))
+//@   loop 1 index i
+//@   invariant none-yet: !ok && forall(k, 0, i, !buildOptionOk(ctx, opts[k]))
+
+// skipFile against go/build's file-name rule (MatchFile: hidden files, _test, goodOSArchFile).
+// a = words after the first "_" ; go/build works on ["", a...] and drops a trailing "test".
+//@ func skipFile(ctx, p, skipTest) (r)
+//@   props C17
+//@   requires ctx != nil && validTag(ctx.GOOS) && validTag(ctx.GOARCH)
+//@   let base: strings.TrimSuffix(path.Base(p), ".go")
+//@   let i: strings.Index(base, "_")
+//@   let a: strings.Split(substr(base, i+1, len(base)), "_")
+//@   let m: len(a) - 1
+//@   let tst: a[m] == "test"
+//@   let last: ite(tst, ite(m >= 1, a[m-1], ""), a[m])
+//@   let prev: ite(tst, ite(m >= 2, a[m-2], ""), ite(m >= 1, a[m-1], ""))
+//@   let good: i < 0 || goodOSArch(prev, last, matchTag(ctx, prev), matchTag(ctx, last))
+//@   let hidden: strings.HasPrefix(filepath.Base(base), "_") || strings.HasPrefix(filepath.Base(base), ".")
+//@   let istest: strings.HasSuffix(base, "_test")
+//@   -- cells
+//@   let gofile: strings.HasSuffix(p, ".go")
+//@   let nodot: !strings.Contains(base, ".")
+//@   let simple: matchTag(ctx, last) == (last == ctx.GOOS || last == ctx.GOARCH) && matchTag(ctx, prev) == (prev == ctx.GOOS || prev == ctx.GOARCH)
+//@   let tabs: has(knownOs, last) == knownOSspec(last) && has(knownArch, last) == knownArchSpec(last) && has(knownOs, prev) == knownOSspec(prev) && has(knownArch, prev) == knownArchSpec(prev)
+//@   requires filepath.Base(base) == base && path.Base(p) == p && !strings.Contains(p, "/")
+//@   requires knownOSspec(ctx.GOOS) && knownArchSpec(ctx.GOARCH) && has(knownOs, ctx.GOOS) && has(knownArch, ctx.GOARCH)
+//@   case not-go: !gofile
+//@   case hidden: gofile && hidden
+//@   case test-skipped: gofile && !hidden && istest && skipTest
+//@   case no-underscore: gofile && !hidden && !(istest && skipTest) && i < 0
+//@   case plain: gofile && !hidden && !(istest && skipTest) && i >= 0 && !tst && nodot && simple && tabs && !(m >= 1 && knownOSspec(last) && last != ctx.GOOS)
+//@   case multiword-foreign-os: gofile && !hidden && !(istest && skipTest) && i >= 0 && !tst && nodot && simple && tabs && m >= 1 && knownOSspec(last) && last != ctx.GOOS
+//@   case test-kept: gofile && !hidden && !(istest && skipTest) && i >= 0 && tst && nodot && simple && tabs && good
+//@   case test-constrained: gofile && !hidden && !(istest && skipTest) && i >= 0 && tst && nodot && simple && tabs && !good
+//@   case dotted: gofile && !hidden && !(istest && skipTest) && i >= 0 && !nodot
+//@   case tag-named-like-os: gofile && !hidden && !(istest && skipTest) && i >= 0 && nodot && !simple
+//@   case table-gap: gofile && !hidden && !(istest && skipTest) && i >= 0 && nodot && simple && !tabs
+//@   ensures file-name-rule: r == !(gofile && !hidden && !(istest && skipTest) && good)
+//@   canary r == !(gofile && !hidden && good)
+//@   replay import "go/build"
+//@   replay ctx := &build.Context{GOOS: ${ctx.GOOS}, GOARCH: ${ctx.GOARCH}, Compiler: ${ctx.Compiler}, CgoEnabled: ${ctx.CgoEnabled}, BuildTags: ${strs:ctx.BuildTags}, ToolTags: ${strs:ctx.ToolTags}, ReleaseTags: ${strs:ctx.ReleaseTags}}
+//@   replay assume m <= 3 && len(p) <= 24 && len(ctx.BuildTags) <= 2 && len(ctx.ToolTags) == 0 && len(ctx.ReleaseTags) <= 2
+//@   replay p := ${p}; skipTest := ${skipTest}
+//@   replay want := verifSkipFile(ctx, p, skipTest)
+//@   replay got := skipFile(ctx, p, skipTest)
+//@   replay if got != want { fmt.Printf("REPLAY-MISMATCH: skipFile(%q, %v) = %v, go/build says %v (GOOS=%q GOARCH=%q tags=%q)\n", p, skipTest, got, want, ctx.GOOS, ctx.GOARCH, ctx.BuildTags) } else { fmt.Println("REPLAY-OK") }
